@@ -12,7 +12,7 @@ RULE = ('exhaustive sweep of the final-batch-size rule: batch_size 1..256 x rema
         'keywords, hparams object overridden by keywords); features of 12 dtypes / trailing shapes (int32 incl. values > 2^24, uint8[.,3,2], int8[.,1], float16, bfloat16, bool, object, S4, U3, datetime64[D], complex64), '
         'four call forms (+ the view classes directly), ints as python / NumPy scalar / 0-d array, fns as list / tuple / generator / iter / append(), '
         'raw_examples as dict / OrderedDict / mappingproxy; per case: every view twice, interleaved iterators, other views in between, kept results, direct helper calls; '
-        'preprocessor chains of length 0..4 (incl. one function registered twice, not zero-preserving); slices of slices; bucket-boundary cases bs = r*2^k; a float32 column with NaN / inf / -0.0 on real rows; non-trivial = N > 0 (at least one batch); distinct = distinct case JSON')
+        'preprocessor chains of length 0..4 (incl. one function registered twice, not zero-preserving); slices of slices; bucket-boundary cases bs = r*2^k; a float32 column with NaN / inf / -0.0 on real rows; every raw column in 8 memory layouts (C, Fortran, every-other-row, negative stride, column of a wider array, read-only, byte-swapped, transposed view); non-trivial = N > 0 (at least one batch); distinct = distinct case JSON')
 TRUSTED = ['numpy slicing / np.zeros / np.arange / slice-store semantics as read by Common/NpArr.v (exercised by the correspondence)',
            'per-dtype behaviour of np.zeros(shape, dtype) (rows are abstract in Coq; judged by the oracle on 12 feature kinds incl. fixed-width bytes / unicode, datetime64, complex64)']
 ASSUMPTIONS = ['batch preprocessors are per-example (row-wise) functions, as the property states',
@@ -80,14 +80,14 @@ def generate(tier, rng):
     for b in range(0, p + 1):
       for bs in (1, 2, 3):
         yield {'n': len(_sel([p, None, b, None])), 'bs': bs, 'nb': 1 + (p + b) % 3, 'chain': (p + b + bs) % 3,
-               'kw': (p + bs) % 4, 'slice': [p, None, b, None], 'deliv': p + 5 * b + bs}
+               'kw': (p + bs) % 4, 'slice': [p, None, b, None], 'deliv': p + 5 * b + bs, 'layout': (p + b + 3 * bs) % 8}
   for i, (n, bs, nb) in enumerate(grid):
-    yield {'n': n, 'bs': bs, 'nb': nb, 'chain': i % 4, 'kw': (i // 4) % 4, 'deliv': i // 16}
+    yield {'n': n, 'bs': bs, 'nb': nb, 'chain': i % 4, 'kw': (i // 4) % 4, 'deliv': i // 16, 'layout': (i // 3) % 8}
   for i in range(nrand):
     bs = rng.choice([1, 2, 3, 7, 8, 16, 31, 32, 64, 100, 128])
     n = rng.choice([rng.randrange(0, 6 * bs + 2), rng.randrange(0, 700)])
     yield {'n': n, 'bs': bs, 'nb': rng.randrange(1, 10), 'chain': rng.randrange(4), 'kw': rng.randrange(4),
-           'deliv': rng.randrange(60)}
+           'deliv': rng.randrange(60), 'layout': rng.randrange(8)}
   for j, sl in enumerate(_slices(rng, nslice)):
     sl2 = None
     if j % 3 == 0:      # a view of a view: slice the sliced dataset again
@@ -95,7 +95,7 @@ def generate(tier, rng):
     n = len(_sel(sl, sl2))
     bs = rng.choice([1, 2, 3, rng.randrange(1, max(2, n + 3)), rng.randrange(1, sl[0] + 2)])
     yield {'n': n, 'bs': bs, 'nb': rng.randrange(1, 6), 'chain': rng.randrange(4), 'kw': rng.randrange(4), 'slice': sl,
-           'deliv': rng.randrange(60), **({'slice2': sl2} if sl2 else {})}
+           'deliv': rng.randrange(60), 'layout': rng.randrange(8), **({'slice2': sl2} if sl2 else {})}
   # bucket boundaries: batch_size = r * 2^k (r odd), remainder within one of r * 2^j, exactly enough buckets
   # to reach that bucket (a halving count computed in floating point is off exactly here)
   odd = [3, 5, 7, 13, 37, 69, 133] if tier == 'quick' else list(range(3, 152, 2))
@@ -107,7 +107,7 @@ def generate(tier, rng):
           rem = (r << jj) + d
           if 0 < rem < bs:
             yield {'n': rem + (bs if (r + jj + d) % 4 == 0 else 0), 'bs': bs, 'nb': k - jj + 1 + (d + 1) // 2,
-                   'chain': (r + d) % 4, 'kw': (r + k + jj) % 4, 'deliv': r + 7 * k + jj}
+                   'chain': (r + d) % 4, 'kw': (r + k + jj) % 4, 'deliv': r + 7 * k + jj, 'layout': (r + k + d) % 8}
 
 
 def _rows(case):
@@ -144,6 +144,47 @@ def _preprocessor(case):
   for f in fns:
     pre = pre.append(f)
   return pre, fns
+
+
+LAYOUTS = ['C', 'fortran', 'every-other-row', 'negative-stride', 'column-of-wider', 'read-only', 'byte-swapped', 'transposed']
+
+
+def _layout(a, mode):
+  """The same values in another memory layout (WAVE5 item 1)."""
+  n = a.shape[0]
+  if mode == 1 and a.ndim >= 2:
+    return np.asfortranarray(a)
+  if mode == 2:
+    big = np.zeros((2 * n,) + a.shape[1:], a.dtype)
+    big[::2] = a
+    return big[::2]
+  if mode == 3:
+    return np.ascontiguousarray(a[::-1])[::-1]
+  if mode == 4:
+    wide = np.zeros(a.shape + (3,), a.dtype)
+    wide[..., 1] = a
+    return wide[..., 1]
+  if mode == 5:
+    c = a.copy()
+    c.flags.writeable = False
+    return c
+  if mode == 6 and _swappable(a.dtype):
+    return a.astype(a.dtype.newbyteorder())
+  if mode == 7 and a.ndim >= 2:
+    rev = tuple(range(a.ndim))[::-1]
+    return np.ascontiguousarray(a.transpose(rev)).transpose(rev)
+  return a
+
+
+def _swappable(dt):
+  dt = np.dtype(dt)
+  return dt.kind in 'iufc' and dt.itemsize > 1
+
+
+def _raw_dt(case, dt):
+  """dtype a RAW column must keep in every batch (byte order included)."""
+  dt = np.dtype(dt)
+  return dt.newbyteorder() if case.get('layout', 0) == 6 and _swappable(dt) else dt
 
 
 def _nanf(i):
@@ -186,6 +227,7 @@ def _dataset(case):
       'big': (np.arange(n, dtype=np.int64) + _BIG).astype(np.int32),
       'nanf': _nanf(np.arange(n)),       # NaN / +inf / -inf / -0.0 on REAL rows
   }
+  ex = {k: _layout(v, case.get('layout', 0)) for k, v in ex.items()}
   pre, _ = _preprocessor(case)
   form = (case.get('deliv', 0) // 15) % 3
   given = ex if form == 0 else collections.OrderedDict(ex) if form == 1 else types.MappingProxyType(ex)
@@ -412,15 +454,15 @@ def run(case):
   drop = _batches(v_drop)
   again = _same(plain, _batches(v_plain)) and _same(drop, _batches(v_drop)) and _same(pad, _batches(v_pad))
   M = fedjax.EXAMPLE_MASK_KEY
-  feat_ok = True   # all features follow x row-wise; pads are zero with dtype / trailing shape kept
+  feat_ok, why = True, set()   # all features follow x row-wise; pads are zero with dtype / trailing shape kept
   for b in plain + drop:
-    feat_ok &= _features_follow(b, b['x'], None, case)
+    feat_ok &= _features_follow(b, b['x'], None, case, why)
   for b in pad:
-    feat_ok &= (M in b and b[M].dtype == np.bool_ and _features_follow(b, b['x'], b[M], case))
+    feat_ok &= (M in b and b[M].dtype == np.bool_ and _features_follow(b, b['x'], b[M], case, why))
   try:
     allx = {k: np.array(v) for k, v in ds.all_examples().items()}
     all_rows = allx['x'].tolist()
-    feat_ok &= _features_follow(allx, allx['x'], None, case)
+    feat_ok &= _features_follow(allx, allx['x'], None, case, why)
   except ValueError:     # an empty chain result etc. is not expected: reported by the oracle
     all_rows = None
   # -- interleaving (WAVE3 item 5): two live iterators over one view, iterators over different views of
@@ -465,70 +507,78 @@ def run(case):
       'plain': [b['x'].tolist() for b in plain],
       'drop': [b['x'].tolist() for b in drop],
       'padded': [[b['x'].tolist(), [bool(t) for t in b[M].tolist()]] if M in b else [b['x'].tolist(), []] for b in pad],
-      'again': bool(again), 'mutated': bool(mutated), 'features_ok': bool(feat_ok),
+      'again': bool(again), 'mutated': bool(mutated), 'features_ok': bool(feat_ok), 'feature_faults': sorted(why),
       'interleaved': bool(inter), 'hidden': bool(hidden), 'kept': bool(kept), 'container': bool(container),
       'helpers': _helpers_ok(ds, case), 'sentinel': _sentinel_ok(case) if case.get('deliv', 0) % 4 == 0 else True,
   }
 
 
-def _features_follow(b, x, mask, case):
+def _features_follow(b, x, mask, case, why=None):
   """Every feature of the batch is the row-wise image of column x (real rows) and
-  exactly zero / b'' / False on padded rows, with dtype and trailing shape unchanged."""
+  exactly zero / b'' / False on padded rows, with dtype and trailing shape unchanged.
+  `why` collects which clause fails: 'keys', 'dtype-shape', 'value', 'pad'."""
+  def no(reason):
+    if why is not None:
+      why.add(reason)
+    return False
   n = len(x)
   real = np.ones(n, bool) if mask is None else np.asarray(mask)
   if real.shape != (n,):
-    return False
+    return no('dtype-shape')
   xi = x.astype(np.int64)
-  exp = {
+  raw = {
       'x': (xi.astype(np.int32), np.int32, ()),
       'img': (((xi[:, None] * 6 + np.arange(6)[None, :]) % 251 + 1).reshape(n, 3, 2).astype(np.uint8), np.uint8, (3, 2)),
       'h': ((xi + 1).astype(np.float16), np.float16, ()),
       'flag': (np.ones(n, bool), np.bool_, ()),
+      's4': (np.array([b'r%d' % (int(i) % 1000) for i in xi], dtype='S4').reshape(n), np.dtype('S4'), ()),
+      'u3': (np.array(['u%d' % (int(i) % 100) for i in xi], dtype='U3').reshape(n), np.dtype('U3'), ()),
+      'day': ((xi + 11000).astype('datetime64[D]'), np.dtype('datetime64[D]'), ()),
+      'cplx': (((xi + 1) + 2j).astype(np.complex64), np.complex64, ()),
+      'i8': ((xi % 100 - 50).astype(np.int8).reshape(n, 1), np.int8, (1,)),
+      'bf': ((xi % 64 + 1).astype(_bf16()), _bf16(), ()),
+      'big': ((xi + _BIG).astype(np.int32), np.int32, ()),
+      'nanf': (_nanf(xi), np.float32, ()),
   }
-  exp['s4'] = (np.array([b'r%d' % (int(i) % 1000) for i in xi], dtype='S4').reshape(n), np.dtype('S4'), ())
-  exp['u3'] = (np.array(['u%d' % (int(i) % 100) for i in xi], dtype='U3').reshape(n), np.dtype('U3'), ())
-  exp['day'] = ((xi + 11000).astype('datetime64[D]'), np.dtype('datetime64[D]'), ())
-  exp['cplx'] = (((xi + 1) + 2j).astype(np.complex64), np.complex64, ())
-  exp['i8'] = ((xi % 100 - 50).astype(np.int8).reshape(n, 1), np.int8, (1,))
-  exp['bf'] = ((xi % 64 + 1).astype(_bf16()), _bf16(), ())
-  exp['big'] = ((xi + _BIG).astype(np.int32), np.int32, ())
-  exp['nanf'] = (_nanf(xi), np.float32, ())
+  exp = {k: (v, _raw_dt(case, dt), tr) for k, (v, dt, tr) in raw.items()}    # raw columns keep their byte order
   if case['chain'] >= 1:
-    exp['y'] = ((xi * 3 + 1).astype(np.int32), np.int32, ())
+    exp['y'] = ((xi * 3 + 1).astype(np.int32), np.dtype(np.int32), ())
   if case['chain'] >= 2:
     y = (xi * 3 + 1).astype(np.int32)
-    exp['y'] = (y * y, np.int32, ())
-    exp['z'] = ((xi + 1).astype(np.float16) + np.float16(1), np.float16, ())
+    exp['y'] = (y * y, np.dtype(np.int32), ())
+    exp['z'] = ((xi + 1).astype(np.float16) + np.float16(1), np.dtype(np.float16), ())
   if case['chain'] >= 3:
-    exp['w'] = ((xi * 4 + 3).astype(np.int32), np.int32, ())
+    exp['w'] = ((xi * 4 + 3).astype(np.int32), np.dtype(np.int32), ())
   want = set(exp) | {'obj'} | ({'__mask__'} if mask is not None else set())
   if set(b) != want:
-    return False
+    return no('keys')
+  ok = True
   for k, (v, dt, tr) in exp.items():
     a = b[k]
     if a.dtype != dt or a.shape != (n,) + tr:
-      return False
+      ok = no('dtype-shape')
+      continue
     if k == 'nanf':      # bitwise: NaN, the infinities and the sign of zero must survive on real rows
-      if a.dtype != np.float32 or not np.array_equal(np.ascontiguousarray(a[real]).view(np.uint32),
-                                                      np.ascontiguousarray(v[real]).view(np.uint32)):
-        return False
+      if not np.array_equal(np.ascontiguousarray(a[real]).astype(np.float32).view(np.uint32),
+                            np.ascontiguousarray(v[real]).view(np.uint32)):
+        ok = no('value')
     elif not np.array_equal(a[real], v[real]):
-      return False
+      ok = no('value')
     # padded rows hold the dtype's own zero value (0, False, b'', '', epoch, 0j): what np.zeros gives
     pad = a[~real]
     if mask is not None and not np.array_equal(pad, np.zeros(pad.shape, dt)):
-      return False
-    if mask is not None and k == 'nanf' and np.any(np.signbit(pad)):
-      return False
+      ok = no('pad')
+    if mask is not None and k == 'nanf' and np.any(np.signbit(pad.astype(np.float32))):
+      ok = no('pad')
   o = b['obj']
   if o.dtype != object or o.shape != (n,):
-    return False
+    return no('dtype-shape')
   for i in range(n):
     if real[i] and o[i] != b'r%d' % int(xi[i]):
-      return False
+      ok = no('value')
     if not real[i] and o[i] not in (0, b'', None):
-      return False
-  return True
+      ok = no('pad')
+  return ok
 
 
 def _minimal_bucket(n, bs, nb):
@@ -601,7 +651,12 @@ def oracle(case, obs):
     out.append(('sentinel-feature', 'a user feature named like the internal mask key is not carried through batch() / all_examples() as an ordinary feature'))
   if not obs.get('helpers', True):
     out.append(('helpers', 'pad_examples / attach_mask / slice_examples / num_examples called directly misbehave'))
-  if not obs['features_ok']:
+  faults = obs.get('feature_faults', [])
+  if 'dtype-shape' in faults:
+    out.append(('dtype-shape', 'a feature changed its dtype (byte order included) or its trailing shape in a batch'))
+  if 'pad' in faults:
+    out.append(('pad-zero', 'a padded row of some feature is not the zero value of its dtype'))
+  if not obs['features_ok'] and not (set(faults) and set(faults) <= {'dtype-shape', 'pad'}):
     out.append(('features', 'a feature / preprocessed column does not follow its row, changed dtype or shape, or a padded row is not zero'))
   return out
 
@@ -640,7 +695,7 @@ def describe(case, obs):
           'scalars': ['int', 'np.int64', '0-d array'][case.get('deliv', 0) % 3],
           'fns_as': ['list', 'tuple', 'generator', 'iter', 'append'][(case.get('deliv', 0) // 3) % 5],
           'mapping': ['dict', 'OrderedDict', 'mappingproxy'][(case.get('deliv', 0) // 15) % 3],
-          'slice': kind + ('+nested' if case.get('slice2') else ''),
+          'slice': kind + ('+nested' if case.get('slice2') else ''), 'layout': LAYOUTS[case.get('layout', 0)],
           'theorem_hypotheses': 'hold (bs >= 1, per-example chain)' if bs >= 1 else 'bs < 1'}
 
 
